@@ -70,6 +70,12 @@ pub fn classify(cfg: &ConfigSpec) -> (bool, Vec<&'static str>) {
     if nested {
         c.push("nested");
     }
+    if cfg.targets.iter().any(|t| t.path.ends_with('/')) {
+        c.push("slash-terminated-target-path");
+        if cfg.targets.iter().any(|t| t.uses.iter().any(|u| u.ends_with('/') && cfg.targets.iter().any(|v| &v.path == u))) {
+            c.push("f11-shape-rewritten");
+        }
+    }
     (cfg.targets.len() >= 2 && (sibling || uses_above || uses_inside), c)
 }
 
@@ -209,6 +215,21 @@ pub fn check_cli(case: &Case, w: usize) -> CheckResult {
     Ok(info)
 }
 
+pub const F11_SIGNATURE: &str = "c10.f11.uses-names-slashed-target-dir";
+
+/// The one configuration shape the generators leave out (gen::build_config rewrites it):
+/// target written `app2/`, used by another target as `app2`.
+pub fn f11_case() -> Case {
+    let mut user = model::TargetSpec::new("é");
+    user.uses = vec!["app2".into()];
+    Case {
+        config: ConfigSpec {
+            targets: vec![model::TargetSpec::new("app2/"), user],
+            ..Default::default()
+        },
+    }
+}
+
 pub fn run(ctx: &mut Ctx) {
     ctx.rule = "in-process: target path sets (nested, disjoint, byte-prefix siblings, 1-3 components) x uses entries (targets, files and \
 directories inside targets, directories above targets, outside paths, prefix siblings) x declaration order; oracle: set equality of the \
@@ -217,6 +238,12 @@ pair, or a uses entry above/inside a target; distinct by SHA-256 of the case"
         .to_string();
     ctx.assumptions = vec!["edges are compared as a set of (from, to) target paths".into()];
     ctx.drive_all("golden", golden(), "golden regression cases", check);
+    ctx.drive_all("golden-f11", vec![f11_case()], "probe of known finding F11", |c: &Case, w| match check(c, w) {
+        Err(CheckError::Violation(v)) if v.signature == "c10.edge.missing" => {
+            Err(CheckError::Violation(Violation { signature: F11_SIGNATURE.to_string(), ..v }))
+        }
+        other => other,
+    });
     let n = ctx.n(30_000, 1_000_000);
     ctx.drive("inproc", || strategy(10), n, check);
     ctx.drive("inproc-wide", || strategy(30), n / 10, check);
